@@ -254,7 +254,7 @@ def _pick(lst, s):
 
 def _gcp(p, s):
     codes = _pick([None, [], ['QUOTA_EXCEEDED'], ['OTHER']], s)
-    return _cc.GCPOperationError(p, 'm', codes, None, {})
+    return _cc.GCPOperationError(400, 'm', codes, None, {})  # status is not read by the classifiers
 
 
 # class-expression text (as written in the classifiers) -> (constructor(p, s), number of string choices)
